@@ -512,6 +512,8 @@ def replay(check_id, path, out=sys.stdout):
         return 2
     v = res.get('violations') or []
     exp_clause = rp.get('clause')
+    if os.environ.get('VERIF_REPLAY_VERBOSE'):
+        print(f"probes={res.get('probes')} stats={res.get('stats')} known={res.get('known')}", file=out)
     if v and (exp_clause is None or v[0].get('clause') == exp_clause):
         same_digest = rp.get('digest') in (None, res.get('digest'))
         print(f'VIOLATION property={check_id} replay={path}', file=out)
